@@ -67,6 +67,34 @@ func c19Gate(c *core.Ctx) {
 			}
 		}
 		if clear == nil {
+			// `c.setLocked(false)`: a private setter that stores its parameter into the flag, called with false
+			for _, call := range ssax.Calls(unlock) {
+				h := call.Common().StaticCallee()
+				if _, isDefer := call.(*ssa.Defer); isDefer || !isPrivateHelper(unlock, h) {
+					continue
+				}
+				for _, a := range ssax.FieldAccesses(h, bLock) {
+					st, ok := a.Use.(*ssa.Store)
+					if !ok || a.Kind != ssax.Write {
+						continue
+					}
+					par, ok := st.Val.(*ssa.Parameter)
+					if !ok {
+						continue
+					}
+					// the store is on every path of the setter
+					missing, _ := ssax.Reach(h, nil, isRet, func(in ssa.Instruction) bool { return in == ssa.Instruction(st) }, nil)
+					for i, q := range h.Params {
+						if q == par && !missing && i < len(call.Common().Args) {
+							if k, ok := call.Common().Args[i].(*ssa.Const); ok && k.Value != nil && k.Value.String() == "false" {
+								clear = call
+							}
+						}
+					}
+				}
+			}
+		}
+		if clear == nil {
 			c.Ob("C19.gate", fname(unlock)+"·clears bLock", c.P.Pos(unlock.Pos()), false, "no `bLock = false` store found")
 		} else {
 			// every path entry→return passes the clear; every path clear→return passes a Broadcast
